@@ -29,10 +29,10 @@ def apply_writes(mem, writes, width, gran):
     return tuple(mem)
 
 
-def write_options(layout, depth, width, gran, reduced=True):
+def write_options(layout, depth, width, gran, reduced=True, wdata=None):
     out = [(0, 0)]
     for a in range(depth):
-        for d in range(1 << width):
+        for d in (range(1 << width) if wdata is None else wdata):
             if gran is None:
                 out.append((1, pack(layout, {"addr": a, "data": d})))
             else:
@@ -63,7 +63,7 @@ class MemBankH(MethodHarness):
             c = self.cfg
             D, W, G = c["depth"], c["width"], c.get("gran")
             wl = self.port["write0"].in_layout
-            wopts = write_options(wl, D, W, G)
+            wopts = write_options(wl, D, W, G, wdata=c.get("wdata"))
             ch = {}
             for i in range(c["rp"]):
                 ch[f"req{i}"] = [(0, 0)] + [(1, a) for a in range(D)]
@@ -143,6 +143,14 @@ def grid(tier):
         for t, r in flags:
             big.append(({"depth": 2, "width": 2, "gran": 1, "rp": 1, "wp": 1, "transparent": t, "read_on_resp": r}, {}))
         big.append(({"depth": 2, "width": 1, "rp": 2, "wp": 1, "transparent": False, "read_on_resp": False}, {}))
+        # granules wider than one bit (mask expansion), restricted data alphabet
+        for t, r in flags:
+            big.append(({"depth": 2, "width": 4, "gran": 2, "rp": 1, "wp": 1, "transparent": t, "read_on_resp": r,
+                         "wdata": [0, 15]}, {"max_depth": 4}))
+        # the other memory primitives behind the bank (response held over several cycles)
+        for t, r in flags:
+            small.append({"depth": 2, "width": 1, "rp": 1, "wp": 1, "transparent": t, "read_on_resp": r,
+                          "memtype": "MultiReadMemory"})
     else:
         for t, r in flags:
             for d, w, g in [(2, 1, None), (2, 2, None), (2, 2, 1), (3, 1, None), (3, 2, 1), (4, 1, None), (2, 4, 2)]:
